@@ -92,7 +92,20 @@ func init() {
 			if kind == 3 {
 				a, b = w.windowArgs(r, s)
 			}
-			return Step{S: []int{s}, A: []uint64{uint64(r.Intn(numCursors)), uint64(kind), a, b}}, true
+			ci := r.Intn(numCursors)
+			reuse := uint64(0)
+			// re-target an existing iterator object of the same kind, wherever it stopped, with
+			// its public Initialize method instead of asking the bitmap for a new one
+			if r.Bool() {
+				for off := 0; off < numCursors; off++ {
+					j := (ci + off) % numCursors
+					if c := w.X.Cur[j]; c != nil && c.Kind == kind && kind != 3 {
+						ci, reuse = j, 1
+						break
+					}
+				}
+			}
+			return Step{S: []int{s}, A: []uint64{uint64(ci), uint64(kind), a, b, reuse}}, true
 		},
 		valid: func(w *World, st *Step) bool {
 			return slotsOK(w, st, 1, 4) && st.A[0] < numCursors && st.A[1] < 4 && st.A[2] <= st.A[3] && st.A[3] <= 1<<32 && st.A[3]-st.A[2] <= 1<<20 && (st.A[1] == 3 || !w.giant(st.S[0]))
@@ -100,6 +113,46 @@ func init() {
 		exec: func(w *World, st *Step) {
 			o := w.B[st.S[0]]
 			c := &Cursor{Kind: int(st.A[1]), Slot: st.S[0]}
+			var old *Cursor
+			if len(st.A) >= 5 && st.A[4] == 1 {
+				if oc := w.X.Cur[st.A[0]]; oc != nil && oc.Kind == c.Kind {
+					old = oc
+				}
+			}
+			reused := false
+			if old != nil && w.try("C04", func() {
+				switch c.Kind {
+				case 0:
+					if it, ok := old.fwd.(*roaring.IntIterator); ok {
+						it.Initialize(o.BM)
+						c.fwd, c.elems, reused = it, o.M.Slice(), true
+					}
+				case 1:
+					if it, ok := old.rev.(*roaring.IntReverseIterator); ok {
+						it.Initialize(o.BM)
+						e := o.M.Slice()
+						for i, j := 0, len(e)-1; i < j; i, j = i+1, j-1 {
+							e[i], e[j] = e[j], e[i]
+						}
+						c.rev, c.elems, reused = it, e, true
+					}
+				case 2:
+					if it, ok := old.many.(*roaring.ManyIntIterator); ok {
+						it.Initialize(o.BM)
+						c.many, c.elems, reused = it, o.M.Slice(), true
+					}
+				}
+			}) {
+				return
+			}
+			if reused {
+				w.probe("iterator-object-reinitialized-" + curKindNames[c.Kind])
+				if old.pos > 0 && old.pos < len(old.elems) {
+					w.probe("iterator-object-reinitialized-midway")
+				}
+				w.X.Cur[st.A[0]] = c
+				return
+			}
 			if w.try("C04", func() {
 				switch c.Kind {
 				case 0:
